@@ -261,8 +261,20 @@ fn exec_issuer(scn: &HistIssuerScn) -> RunReport {
         }
         cx.rep.count("oracle.c11.issuer.compared");
         cx.states.insert(hash_str(&format!("issuer|{}|{}|{}|{}|{:?}", k.min(3), out_reused.class(), call.decoys, call.fmt.name(), call.holder_key.is_some())));
+        // Byte identity is the strong form (it holds when all randomness of the call comes from the
+        // rewound entropy stream). If the library legitimately keeps generator state outside the
+        // call (a process-wide CSPRNG, say) the two executions draw different salts: then the
+        // results must still be equal "up to fresh salts, decoys and signature randomness".
         let same = match (&out_reused, &out_fresh) {
-            (Out::Ok(a), Out::Ok(b)) => a == b,
+            (Out::Ok(a), Out::Ok(b)) => {
+                if a == b {
+                    cx.rep.count("oracle.c11.issuer.byte_identical");
+                    true
+                } else {
+                    cx.rep.count("oracle.c11.issuer.compared_up_to_randomness");
+                    issued_equal_up_to_randomness(a, b, call.fmt, call.decoys)
+                }
+            }
             (Out::Err { variant: a, msg: am }, Out::Err { variant: b, msg: bm }) => a == b && am == bm,
             _ => false,
         };
@@ -307,6 +319,59 @@ fn exec_issuer(scn: &HistIssuerScn) -> RunReport {
         }
     }
     finish(cx, w, t0)
+}
+
+/// Two issued SD-JWTs are equal up to fresh salts, decoys and signature randomness: same header,
+/// same payload once digests are blanked, same sequence of disclosed (name, value) pairs (values
+/// with their digests blanked), and — with decoys off — the same number of digests per object.
+fn issued_equal_up_to_randomness(a: &str, b: &str, fmt: Fmt, decoys: bool) -> bool {
+    fn blank(v: &Value, keep_counts: bool) -> Value {
+        match v {
+            Value::Object(o) => {
+                if o.len() == 1 && o.get("...").map(|d| d.is_string()).unwrap_or(false) {
+                    return json!("<placeholder>");
+                }
+                let mut m = Map::new();
+                for (k, c) in o {
+                    if k == "_sd" {
+                        if keep_counts {
+                            m.insert(k.clone(), json!(c.as_array().map(|a| a.len())));
+                        }
+                    } else {
+                        m.insert(k.clone(), blank(c, keep_counts));
+                    }
+                }
+                Value::Object(m)
+            }
+            Value::Array(x) => Value::Array(x.iter().map(|c| blank(c, keep_counts)).collect()),
+            _ => v.clone(),
+        }
+    }
+    let (Some(ma), Some(mb)) = (Message::parse(a, fmt), Message::parse(b, fmt)) else { return false };
+    if ma.h != mb.h || ma.kb != mb.kb || ma.disclosures.len() != mb.disclosures.len() {
+        return false;
+    }
+    let (Some(pa), Some(pb)) = (world::payload_of(&ma), world::payload_of(&mb)) else { return false };
+    if blank(&Value::Object(pa), !decoys) != blank(&Value::Object(pb), !decoys) {
+        return false;
+    }
+    for (da, db) in ma.disclosures.iter().zip(&mb.disclosures) {
+        let (Some(va), Some(vb)) = (model::decode_disclosure(da), model::decode_disclosure(db)) else { return false };
+        let (Some(xa), Some(xb)) = (va.as_array(), vb.as_array()) else { return false };
+        if xa.len() != xb.len() || xa.len() < 2 {
+            return false;
+        }
+        for (ea, eb) in xa.iter().zip(xb).skip(1) {
+            if blank(ea, !decoys) != blank(eb, !decoys) {
+                return false;
+            }
+        }
+        // the salt itself must be a fresh 128-bit-looking string in both
+        if !xa[0].is_string() || !xb[0].is_string() {
+            return false;
+        }
+    }
+    true
 }
 
 fn exec_holder(scn: &HistHolderScn) -> RunReport {
